@@ -523,8 +523,21 @@ class JSTypedArray(JSObject):
         return int(value).to_bytes(self._element_size, "little", signed=self._signed)
 
     def _coerce_value(self, value):
-        """Coerce value to the appropriate type. Override in subclasses."""
-        return int(value) if isinstance(value, (int, float)) else 0
+        """Coerce value to the element type. Float and clamped kinds override this.
+
+        Integer kinds: ToNumber, NaN and the infinities become 0, the fraction is dropped
+        and the result wraps modulo 2**bits.
+        """
+        n = to_number(value)
+        if isinstance(n, float):
+            if is_nan(n) or is_infinity(n):
+                return 0
+            n = int(n)
+        bits = 8 * self._element_size
+        n &= (1 << bits) - 1
+        if self._signed and n >= 1 << (bits - 1):
+            n -= 1 << bits
+        return n
 
     def __repr__(self) -> str:
         return f"{self._type_name}({self._data})"
@@ -537,17 +550,6 @@ class JSInt32Array(JSTypedArray):
     _type_name = "Int32Array"
     _signed = True
 
-    def _coerce_value(self, value):
-        """Coerce to signed 32-bit integer."""
-        if isinstance(value, (int, float)):
-            v = int(value)
-            # Handle overflow to signed 32-bit
-            v = v & 0xFFFFFFFF
-            if v >= 0x80000000:
-                v -= 0x100000000
-            return v
-        return 0
-
 
 class JSUint32Array(JSTypedArray):
     """JavaScript Uint32Array."""
@@ -555,12 +557,6 @@ class JSUint32Array(JSTypedArray):
     _element_size = 4
     _type_name = "Uint32Array"
     _signed = False
-
-    def _coerce_value(self, value):
-        """Coerce to unsigned 32-bit integer."""
-        if isinstance(value, (int, float)):
-            return int(value) & 0xFFFFFFFF
-        return 0
 
 
 class JSFloat64Array(JSTypedArray):
@@ -572,9 +568,7 @@ class JSFloat64Array(JSTypedArray):
 
     def _coerce_value(self, value):
         """Coerce to float."""
-        if isinstance(value, (int, float)):
-            return float(value)
-        return 0.0
+        return float(to_number(value))
 
     def _unpack_value(self, data: bytes):
         """Unpack bytes to float64."""
@@ -596,12 +590,6 @@ class JSUint8Array(JSTypedArray):
     _type_name = "Uint8Array"
     _signed = False
 
-    def _coerce_value(self, value):
-        """Coerce to unsigned 8-bit integer."""
-        if isinstance(value, (int, float)):
-            return int(value) & 0xFF
-        return 0
-
 
 class JSInt8Array(JSTypedArray):
     """JavaScript Int8Array."""
@@ -609,15 +597,6 @@ class JSInt8Array(JSTypedArray):
     _element_size = 1
     _type_name = "Int8Array"
     _signed = True
-
-    def _coerce_value(self, value):
-        """Coerce to signed 8-bit integer."""
-        if isinstance(value, (int, float)):
-            v = int(value) & 0xFF
-            if v >= 0x80:
-                v -= 0x100
-            return v
-        return 0
 
 
 class JSInt16Array(JSTypedArray):
@@ -627,15 +606,6 @@ class JSInt16Array(JSTypedArray):
     _type_name = "Int16Array"
     _signed = True
 
-    def _coerce_value(self, value):
-        """Coerce to signed 16-bit integer."""
-        if isinstance(value, (int, float)):
-            v = int(value) & 0xFFFF
-            if v >= 0x8000:
-                v -= 0x10000
-            return v
-        return 0
-
 
 class JSUint16Array(JSTypedArray):
     """JavaScript Uint16Array."""
@@ -643,12 +613,6 @@ class JSUint16Array(JSTypedArray):
     _element_size = 2
     _type_name = "Uint16Array"
     _signed = False
-
-    def _coerce_value(self, value):
-        """Coerce to unsigned 16-bit integer."""
-        if isinstance(value, (int, float)):
-            return int(value) & 0xFFFF
-        return 0
 
 
 class JSUint8ClampedArray(JSTypedArray):
@@ -659,16 +623,13 @@ class JSUint8ClampedArray(JSTypedArray):
 
     def _coerce_value(self, value):
         """Coerce to clamped unsigned 8-bit integer (0-255)."""
-        if isinstance(value, (int, float)):
-            # Round half to even for 0.5 values
-            v = round(value)
-            # Clamp to 0-255
-            if v < 0:
-                return 0
-            if v > 255:
-                return 255
-            return v
-        return 0
+        n = to_number(value)
+        # Clamp to 0-255 (NaN becomes 0), then round half to even
+        if is_nan(n) or n <= 0:
+            return 0
+        if n >= 255:
+            return 255
+        return round(n)
 
 
 class JSFloat32Array(JSTypedArray):
@@ -682,11 +643,14 @@ class JSFloat32Array(JSTypedArray):
         """Coerce to 32-bit float."""
         import struct
 
-        if isinstance(value, (int, float)):
-            # Convert to float32 and back to simulate precision loss
-            packed = struct.pack("<f", float(value))
-            return struct.unpack("<f", packed)[0]
-        return 0.0
+        n = float(to_number(value))
+        # Convert to float32 and back to simulate precision loss
+        try:
+            packed = struct.pack("<f", n)
+        except OverflowError:
+            # Magnitude rounds beyond the largest float32
+            return math.copysign(float("inf"), n)
+        return struct.unpack("<f", packed)[0]
 
     def _unpack_value(self, data: bytes):
         """Unpack bytes to float32."""
